@@ -206,6 +206,15 @@ def _check_case(ctx, r, variant):
         out, eol, how = out[len("<!DOCTYPE html>\n"):], "\n", "HTMLDocument(tree).render()"
         r, _deps = refdoc.assemble([r], [], "lib", True)
         ctx.count("document_variants")
+    elif variant == "fragment_then_page" or (variant is None and isinstance(tag, ht.Tag) and ctx.rng.random() < 0.04):
+        # a fragment that is shown on its own AND used as the start of a page which is then completed: the fragment still renders
+        # as the tree it was built from
+        frag = ht.TagList(tag)
+        page = ht.HTMLDocument(frag, lang="en") if ctx.rng.random() < 0.5 else ht.HTMLDocument(frag)
+        page.append(ht.div("appended to the page"), ht.tags.footer("f"))
+        page.render()
+        out, eol, how = frag.get_html_string(), "\n", "TagList(tree) after HTMLDocument(that list).append(...)"
+        ctx.count("fragment_then_page_variants")
     elif variant is None:
         out, eol, how = render_variants(ctx.rng, tag)
     else:
